@@ -308,4 +308,104 @@ def r7_6(ctx):
     borrow(ctx, r2_4, "R2.4", "R7.6", " [a folded cell shows every character only if the break computation keeps its units and its running position right]")
 
 
-RULES = [r7_1, r7_2, r7_3, r7_4, r7_5, r7_6]
+def r7_7(ctx):
+    ctx.rule("R7.7", "one box row per line: in Table._render every Segment whose text comes from box.get_top / get_row / get_bottom holds exactly that one row - the row string is never repeated (`row * n`) or concatenated with another row inside a segment - so `leading` blank rows are emitted as separate lines, each as wide as the table")
+    f = ctx.repo.fn("table:Table._render")
+    m = f.module
+    from ..astutil import inline as _inl, single_defs as _sdf
+    sd = _sdf(f.node)
+    n = 0
+    for x in walk_local(f.node):
+        if not (isinstance(x, ast.Call) and norm(x.func) in ("_Segment", "Segment") and x.args):
+            continue
+        a0 = _inl(x.args[0], sd)
+        rows = [c for c in ast.walk(a0) if isinstance(c, ast.Call) and isinstance(c.func, ast.Attribute) and c.func.attr in ("get_top", "get_row", "get_bottom")]
+        if not rows:
+            continue
+        n += 1
+        where = f"{m.relpath}:{x.lineno}"
+        if a0 is rows[0] or (isinstance(a0, ast.Call) and a0 in rows):
+            ctx.ok(where, f"`{short(x.args[0])}` is emitted as one line", f.fq)
+        elif isinstance(a0, ast.BinOp) and isinstance(a0.op, (ast.Mult, ast.Add)):
+            ctx.violation(f.fq, short(x), where, f"`{short(x.args[0])}` puts several copies of a box row into ONE segment with no new line between them: that line is a multiple of the table's width (Table(leading=2) draws its blank separator rows twice as wide as the table)")
+        else:
+            raise AnalysisError(f"Table._render: box row used inside `{short(a0)}`; not a plain row, not a repetition - not decided")
+    ctx.floor(n, 3, "box rows emitted by Table._render")
+
+
+def r7_8(ctx):
+    from ..yieldpaths import Enumerator, Unsupported, resolve, select, show
+    ctx.rule("R7.8", "an expanding table is padded out to the available width: on every path of Table._calculate_column_widths that is consistent with `self.expand` and reaches the final distribution `ratio_distribute(T - table_width, widths)`, the target T is the function's own max_width parameter (path normal form with the conditional expression forked; the non-expand / min_width paths may use a smaller target)")
+    f = ctx.repo.fn("table:Table._calculate_column_widths")
+    m = f.module
+    mw = f.params[2] if len(f.params) > 2 else "max_width"
+    try:
+        P = [resolve(p_, keep=("table_width", "widths")) for p_ in Enumerator(f.node, inline_temps=False).run()]
+    except Unsupported as u:
+        raise AnalysisError(f"Table._calculate_column_widths uses a statement the path normal form does not cover ({u})")
+    n = 0
+    bad = None
+    for p_ in select(P, {"self.expand": True}):
+        for ev in p_:
+            txt = ev[2] if ev[0] == "set" else (ev[1] if ev[0] in ("do", "return") else None)
+            if not txt or "ratio_distribute(" not in txt:
+                continue
+            try:
+                e = ast.parse(txt, mode="eval").body
+            except SyntaxError:
+                continue
+            for c in ast.walk(e):
+                if isinstance(c, ast.Call) and norm(c.func) == "ratio_distribute" and len(c.args) == 2 and isinstance(c.args[0], ast.BinOp) and isinstance(c.args[0].op, ast.Sub) and "table_width" in norm(c.args[0].right):
+                    n += 1
+                    tgt = norm(c.args[0].left)
+                    if tgt != mw:
+                        bad = (tgt, p_)
+    if n == 0:
+        raise AnalysisError("Table._calculate_column_widths: no final `ratio_distribute(T - table_width, widths)` on a path with self.expand - the expansion step is written in a form this rule does not read")
+    ctx.check(bad is None, f.fq, f"ratio_distribute({bad[0] if bad else mw} - table_width, widths)", f.where, f"with expand, the columns are padded out to `{mw}` on all {n} paths",
+              f"with expand=True the columns are padded out to `{bad[0] if bad else ''}` rather than to the available width `{mw}`: Table(expand=True, min_width=20) stays at its content width instead of filling the console" + (f" [path: {show(bad[1])[-400:]}]" if bad else ""))
+
+
+def r7_9(ctx):
+    ctx.rule("R7.9", "no stale total: in Table._calculate_column_widths `table_width` always is the sum of the `widths` in force - from every (re)definition or element store of `widths`, no path reaches a read of `table_width` without passing `table_width = sum(widths)` first (CFG reachability with the recomputations and the other definitions as barriers); a stale total makes the expand / min_width decision for a table whose columns were just re-measured")
+    f = ctx.repo.fn("table:Table._calculate_column_widths")
+    m = f.module
+    g = cfgmod.build(f.node)
+    wdefs, recompute, reads = set(), set(), {}
+    for nd in g.nodes:
+        if nd.id not in g.reachable:
+            continue
+        if nd.kind == "stmt" and isinstance(nd.stmt, (ast.Assign, ast.AugAssign, ast.AnnAssign)):
+            tgts = nd.stmt.targets if isinstance(nd.stmt, ast.Assign) else [nd.stmt.target]
+            val = nd.stmt.value
+            for t in tgts:
+                base = t.value if isinstance(t, ast.Subscript) else t
+                if isinstance(base, ast.Name) and base.id == "widths":
+                    wdefs.add(nd.id)
+                if isinstance(t, ast.Name) and t.id == "table_width" and val is not None and norm(val) == "sum(widths)":
+                    recompute.add(nd.id)
+        e = nd.stmt if nd.kind == "stmt" else nd.expr
+        if e is None or nd.kind not in ("stmt", "test", "for"):
+            continue
+        src = e
+        if nd.kind == "stmt" and isinstance(e, (ast.Assign, ast.AnnAssign, ast.AugAssign)):
+            src = e.value if not isinstance(e, ast.AugAssign) else e
+        if nd.kind == "stmt" and isinstance(e, (ast.If, ast.While, ast.For, ast.With, ast.Try)):
+            continue
+        if src is not None and any(isinstance(x, ast.Name) and x.id == "table_width" and isinstance(x.ctx, ast.Load) for x in ast.walk(src)):
+            reads[nd.id] = nd
+    if not wdefs or not recompute or not reads:
+        raise AnalysisError("Table._calculate_column_widths: `widths` / `table_width = sum(widths)` / reads of table_width not found in the expected roles")
+    n = 0
+    for d in sorted(wdefs):
+        r = g.reach([d], avoid=(recompute | wdefs) - {d})
+        stale = [reads[x] for x in r if x in reads and x != d]
+        n += 1
+        dn = g.nodes[d]
+        ctx.check(not stale, f.fq, short(dn.stmt), f"{m.relpath}:{dn.lineno}", "every read of table_width after this definition of widths sees a recomputed sum",
+                  f"after `{short(dn.stmt)}` the total `table_width` is read at line {stale[0].lineno if stale else 0} (`{short(stale[0].stmt if stale and stale[0].kind == 'stmt' else stale[0].expr) if stale else ''}`) without `table_width = sum(widths)` in between: the decision uses the width of the columns BEFORE they were re-measured - an expanding table with ratio columns that overshoot stays at its content width",
+                  g.describe_path(g.path(d, {stale[0].id}, avoid=(recompute | wdefs) - {d}) or []) if stale else None)
+    ctx.floor(n, 3, "definitions of widths in _calculate_column_widths")
+
+
+RULES = [r7_1, r7_2, r7_3, r7_4, r7_5, r7_6, r7_7, r7_8, r7_9]
